@@ -321,4 +321,7 @@ def run(P, R, tier):
     # a second PASS (after AGAIN) is parsed as credentials again, so a +! added by the retry is honoured
     xq, b = c06.builder(P)
     c06.query_callers(P, Remap(R, {'C06.GRD.4': 'C02.GRD.7'}), xq, b)
+    # a slot above the width of a narrowed mask is never awaited; a narrow reference count frees a service that is owed a verdict
+    rules.narrowing_fields(P, R, 'C02.WID.1', ('modules/iauth_core.c', 'modules/iauth_xquery.c', 'modules/iauth_class.c'))
+    rules.counter_widths(P, R, 'C02.WID.2', recs=('iauth_xquery_service', 'iauth_request'))
     return EXPLANATION, ASSUMPTIONS
